@@ -66,8 +66,27 @@ def register(reg):
     k.modifies = tuple(k.modifies) + (KEY,)
     k.properties = tuple(k.properties) + ("C18",)
     k.setup = lambda c: it_heap(c)
+    _eager_clause(reg)
     k.ens("a-lazy-tree-is-executed-without-starting-any-iteration",
           lambda c: B(z3.Implies(lazy(payload_heap(c, True), c.relation.z), z3.And(it_heap(c) == it_heap(c, True), payload_heap(c) == payload_heap(c, True)))))
+
+
+def _eager_clause(reg):
+    """'Sort, deduplication and materialization consume their input at execute time and never again afterwards': what execute
+    returns for them holds its rows (a RowSequence / RowMapping, whose content is a list / dict value), it is not a lazy view."""
+    k = reg.contracts["iteration._engine:Engine.execute"]
+    A_ = lambda c, cls, attr: c.ex.spec.A(cls, attr)  # noqa: E731
+
+    def eager(c):
+        r = c.relation.z
+        t = smt.typ(r)
+        uop = smt.typ(A_(c, "UnaryOperationRelation", "operation")(r))
+        is_eager = z3.Or(z3.And(t == cid(c, "UnaryOperationRelation"), z3.Or(uop == cid(c, "Sort"), uop == cid(c, "Deduplication"))), t == cid(c, "Materialization"))
+        shortcut = z3.Or(trivial_z(c, r), z3.Select(payload_heap(c, True), r) != smt.NONE)
+        held = z3.Or(smt.typ(c.result.z) == cid(c, "RowSequence"), smt.typ(c.result.z) == cid(c, "RowMapping"))
+        return B(z3.Implies(z3.And(is_eager, z3.Not(shortcut)), held))
+
+    k.ens("an-eager-operation-returns-rows-it-holds", eager)
 
 
 ITER_CALLS = {"list", "tuple", "set", "frozenset", "dict", "sorted", "sum", "min", "max", "any", "all", "enumerate", "zip", "map", "filter", "iter", "next", "reversed", "len"}
